@@ -265,75 +265,241 @@ func checkC12(p *Prog, rp *Report) {
 	}
 }
 
-func c12Count(p *Prog, rp *Report) {
-	r := rp.Rule("C12-COUNT", "Hasher counts and forwards exactly the bytes written", 5)
-	tm := newTermer()
-	w := p.Method("hashio", "Hasher", "Write")
-	if w == nil {
-		r.bad("hashio.Hasher.Write", "", "method not found", nil)
-	} else {
-		okFwd, okSize, okRet := false, false, false
-		for _, c := range allCalls(w) {
-			if tm.term(c.(ssa.Value)) == "p0.hash.Write(p1)" {
-				okFwd = true
+// c12Env is an interpretation context for the hashing wrappers: hash constructors yield opaque hash
+// objects; Write / Sum / Reset / Size / BlockSize on them are oracles (the next Write returns writeN and
+// writeErr; Sum returns an opaque digest naming its argument).
+type c12Env struct {
+	p        *Prog
+	m        *Machine
+	st       *State
+	writeN   int64
+	writeErr bool
+	writes   []string // "hashtag|argument" per hash.Write
+	sums     []string
+	digest   []byte // what the hash oracle's Sum appends
+}
+
+func newC12Env(p *Prog) *c12Env {
+	e := &c12Env{p: p, writeN: 5, digest: []byte{0xab, 0xcd, 0xef}}
+	m := NewMachine(p, nil)
+	installStringModels(m)
+	cnt := 0
+	installHashCtors(m, &cnt)
+	none := func(i int) string { return "" }
+	m.Hooks["fmt.Sprintf"] = func(m *Machine, st *State, call *ssa.CallCommon, args []Val) ([]Val, bool) {
+		format, _ := args[0].(string)
+		elems, _, ok := m.sliceElems(st, args[1])
+		if ok && len(elems) == 1 {
+			x := elems[0]
+			if iv, isI := x.(IfaceV); isI {
+				x = iv.V
 			}
-		}
-		for _, b := range w.Blocks {
-			for _, ins := range b.Instrs {
-				if st, ok := ins.(*ssa.Store); ok && tm.term(st.Addr) == "&p0.size" {
-					v := tm.term(st.Val)
-					okSize = v == "(p0.hash.Write(p1)#0 + p0.size)" || v == "(len(p1) + p0.size)"
+			if format == "%x" || format == "%02x" {
+				if bs, _, ok := m.sliceElems(st, x); ok && len(bs) > 0 {
+					var sb strings.Builder
+					for _, b := range bs {
+						if n, isInt := b.(int64); isInt {
+							fmt.Fprintf(&sb, "%02x", n)
+						}
+					}
+					return []Val{sb.String()}, true
 				}
 			}
 		}
-		for _, ret := range returnsReachable(w.Blocks[0]) {
-			okRet = tm.term(ret.Results[0]) == "p0.hash.Write(p1)#0" && tm.term(ret.Results[1]) == "p0.hash.Write(p1)#1"
+		return sprintfModel(m, st, call, args)
+	}
+	m.InvokeHook = func(m *Machine, st *State, call *ssa.CallCommon, recv Val, args []Val) ([]Val, bool) {
+		tag := hashTag(st, recv)
+		if tag == "" {
+			return nil, false
 		}
-		var stores int
-		for _, b := range w.Blocks {
-			for _, ins := range b.Instrs {
-				if _, ok := ins.(*ssa.Store); ok {
-					stores++
-				}
+		switch call.Method.Name() {
+		case "Write":
+			e.writes = append(e.writes, tag+"|"+fmtVal(args[0], none))
+			if e.writeErr {
+				return []Val{&TupleV{E: []Val{e.writeN, IfaceV{T: errType, V: "hash write failed"}}}}, true
 			}
-		}
-		r.check(okFwd && okSize && okRet && stores == 1, "hashio.Hasher.Write", p.Pos(w.Pos()), "hash.Write(p) with the caller's slice; size += n; (n, err) returned", fmt.Sprintf("forwarding=%v size-update=%v results=%v stores=%d (expected: hash.Write(p); size += n; return n, err)", okFwd, okSize, okRet, stores))
-	}
-	for _, acc := range []struct{ name, want string }{{"Size", "p0.size"}, {"Name", "p0.name"}, {"Sum", "p0.hash.Sum(p1)"}} {
-		fn := p.Method("hashio", "Hasher", acc.name)
-		key := "hashio.Hasher." + acc.name
-		if fn == nil {
-			r.bad(key, "", "method not found", nil)
-			continue
-		}
-		t := newTermer()
-		got := ""
-		for _, ret := range returnsReachable(fn.Blocks[0]) {
-			got = t.term(ret.Results[0])
-		}
-		r.check(got == acc.want, key, p.Pos(fn.Pos()), "returns "+acc.want, "returns "+got+", want "+acc.want)
-	}
-	if nh := p.Func("hashio", "NewHasher"); nh != nil {
-		t := newTermer()
-		fields := map[string]string{}
-		for _, b := range nh.Blocks {
-			for _, ins := range b.Instrs {
-				if st, ok := ins.(*ssa.Store); ok {
-					a := t.term(st.Addr)
-					if i := strings.LastIndex(a, "."); i >= 0 {
-						fields[a[i+1:]] = t.term(st.Val)
+			return []Val{&TupleV{E: []Val{e.writeN, nilV{}}}}, true
+		case "Sum":
+			arg := "nil"
+			if _, isNil := args[0].(nilV); !isNil {
+				arg = fmtVal(args[0], none)
+			}
+			e.sums = append(e.sums, tag+"|"+arg)
+			var out []byte
+			if pre, _, ok := m.sliceElems(st, args[0]); ok {
+				for _, b := range pre {
+					if n, isInt := b.(int64); isInt {
+						out = append(out, byte(n))
 					}
 				}
 			}
+			return []Val{byteSliceVal(st, append(out, e.digest...))}, true
+		case "Reset":
+			return []Val{nil}, true
+		case "Size":
+			return []Val{int64(32)}, true
+		case "BlockSize":
+			return []Val{int64(64)}, true
 		}
-		ok := fields["name"] == "p0" && fields["hash"] == "hashio.GetHash(p0)#0" && (fields["size"] == "0" || fields["size"] == "")
-		okErr := false
-		for _, s := range errDiscipline(nh, func(n string, c *ssa.Call) bool { return strings.HasSuffix(n, "hashio.GetHash") }) {
-			okErr = s.Status == "checked" || s.Status == "returned"
+		return nil, false
+	}
+	e.m = m
+	e.st = initState(m, "hashio", "control")
+	return e
+}
+
+func (e *c12Env) call(fn *ssa.Function, args ...Val) (Val, string) {
+	if fn == nil {
+		return nil, "undecided: function not found"
+	}
+	e.st.Status = stRun
+	e.st.Frames = nil
+	e.st.push(fn, args, nil)
+	out := e.m.Run(e.st)
+	if len(out) != 1 {
+		return nil, fmt.Sprintf("undecided: %d paths", len(out))
+	}
+	switch out[0].Status {
+	case stRet:
+		return e.st.Ret, ""
+	case stPanic:
+		return nil, "PANIC: " + out[0].Msg
+	}
+	return nil, "undecided: " + out[0].Msg
+}
+
+// method calls the method `name` of the dynamic type of an interface value or of *T for a pointer.
+func (e *c12Env) method(recv Val, t types.Type, name string, args ...Val) (Val, string) {
+	if iv, ok := recv.(IfaceV); ok {
+		recv, t = iv.V, iv.T
+	}
+	fn := e.p.SSA.LookupMethod(t, nil, name)
+	if fn == nil {
+		if pt, ok := t.(*types.Pointer); ok {
+			if n, ok := pt.Elem().(*types.Named); ok {
+				fn = e.p.SSA.LookupMethod(t, n.Obj().Pkg(), name)
+			}
 		}
-		r.check(ok && okErr, "hashio.NewHasher", p.Pos(nh.Pos()), "name = the requested name, hash = GetHash(name), size = 0; GetHash's error returned", fmt.Sprintf("fields %v, error propagated %v", fields, okErr))
-	} else {
-		r.bad("hashio.NewHasher", "", "function not found", nil)
+	}
+	if fn == nil {
+		return nil, "undecided: no method " + name + " on " + t.String()
+	}
+	return e.call(fn, append([]Val{recv}, args...)...)
+}
+
+func errIsNil(v Val) bool { _, ok := v.(nilV); return ok }
+
+func c12Count(p *Prog, rp *Report) {
+	r := rp.Rule("C12-COUNT", "Hasher counts and forwards exactly the bytes written", 5)
+	hasherT := p.Named("hashio", "Hasher")
+	nh := p.Func("hashio", "NewHasher")
+	if hasherT == nil || nh == nil {
+		r.bad("hashio.NewHasher", "", "hashio.Hasher / NewHasher not found", nil)
+		return
+	}
+	pos := p.Pos(nh.Pos())
+	hpT := types.NewPointer(hasherT)
+	report := func(key string, problems []string, okMsg string) {
+		fillProblems(r, key, pos, problems, okMsg)
+	}
+	// NewHasher
+	{
+		var problems []string
+		e := newC12Env(p)
+		ret, why := e.call(nh, "sha256")
+		if why != "" {
+			problems = append(problems, why)
+		} else if tv, ok := ret.(*TupleV); !ok || len(tv.E) != 2 || !errIsNil(tv.E[1]) || errIsNil(tv.E[0]) {
+			problems = append(problems, "NewHasher(\"sha256\") does not return a hasher")
+		} else {
+			name, why := e.method(tv.E[0], hpT, "Name")
+			size, why2 := e.method(tv.E[0], hpT, "Size")
+			if why != "" || why2 != "" {
+				problems = append(problems, why+why2)
+			} else if name != "sha256" || size != int64(0) {
+				problems = append(problems, fmt.Sprintf("a new sha256 hasher has Name %v and Size %v, want sha256 and 0", name, size))
+			}
+			if tag := hashTag(e.st, tv.E[0]); !strings.HasPrefix(tag, "crypto/sha256.New#") {
+				problems = append(problems, "a new sha256 hasher wraps "+tag)
+			}
+		}
+		e = newC12Env(p)
+		if ret, why := e.call(nh, "crc32"); why != "" {
+			problems = append(problems, why)
+		} else if tv, ok := ret.(*TupleV); !ok || errIsNil(tv.E[1]) || !errIsNil(tv.E[0]) {
+			problems = append(problems, "NewHasher of an unknown algorithm does not return (nil, error)")
+		}
+		report("hashio.NewHasher", problems, "name = the requested name, hash = GetHash(name), size = 0; unknown name -> (nil, error)")
+	}
+	// Write / Size / Sum / Name
+	for _, acc := range []string{"Write", "Size", "Sum", "Name"} {
+		var problems []string
+		e := newC12Env(p)
+		ret, why := e.call(nh, "sha512")
+		tv, _ := ret.(*TupleV)
+		if why != "" || tv == nil || !errIsNil(tv.E[1]) {
+			r.undecided("hashio.Hasher."+acc, pos, "NewHasher: "+why)
+			continue
+		}
+		h := tv.E[0]
+		data := byteSliceVal(e.st, []byte("hello"))
+		none := func(i int) string { return "" }
+		switch acc {
+		case "Write":
+			e.writeN = 5
+			res, why := e.method(h, hpT, "Write", data)
+			if why != "" {
+				problems = append(problems, why)
+				break
+			}
+			wt, _ := res.(*TupleV)
+			if wt == nil || wt.E[0] != int64(5) || !errIsNil(wt.E[1]) {
+				problems = append(problems, fmt.Sprintf("Write of 5 bytes returns %s, want (5, nil) as the hash reported", fmtVal(res, none)))
+			}
+			if len(e.writes) != 1 || !strings.HasSuffix(e.writes[0], "|"+fmtVal(data, none)) {
+				problems = append(problems, fmt.Sprintf("the hash is written %v, want the caller's slice once", e.writes))
+			}
+			e.writeErr, e.writeN = true, 2
+			res, why = e.method(h, hpT, "Write", data)
+			if wt, _ := res.(*TupleV); why != "" || wt == nil || errIsNil(wt.E[1]) || wt.E[0] != int64(2) {
+				problems = append(problems, "an error (and short count) of the hash's Write is not returned unchanged"+why)
+			}
+		case "Size":
+			e.writeN = 5
+			e.method(h, hpT, "Write", data)
+			e.writeN = 3
+			e.method(h, hpT, "Write", byteSliceVal(e.st, []byte("abc")))
+			if sz, why := e.method(h, hpT, "Size"); why != "" {
+				problems = append(problems, why)
+			} else if sz != int64(8) {
+				problems = append(problems, fmt.Sprintf("after writes of 5 and 3 bytes Size() = %v, want 8", sz))
+			}
+		case "Sum":
+			if d, why := e.method(h, hpT, "Sum", nilV{}); why != "" {
+				problems = append(problems, why)
+			} else if deepRender(e.st, d, 0) != "[i171 i205 i239]" {
+				problems = append(problems, "Sum(nil) does not return the hash's digest: "+deepRender(e.st, d, 0))
+			}
+			pre := byteSliceVal(e.st, []byte{1, 2})
+			if d, why := e.method(h, hpT, "Sum", pre); why != "" {
+				problems = append(problems, why)
+			} else if deepRender(e.st, d, 0) != "[i1 i2 i171 i205 i239]" {
+				problems = append(problems, "Sum(b) does not hand b to the hash: "+deepRender(e.st, d, 0))
+			}
+		case "Name":
+			if n, why := e.method(h, hpT, "Name"); why != "" {
+				problems = append(problems, why)
+			} else if n != "sha512" {
+				problems = append(problems, fmt.Sprintf("Name() = %v, want sha512", n))
+			}
+		}
+		report("hashio.Hasher."+acc, problems, map[string]string{
+			"Write": "hash.Write(p) once with the caller's slice; count and error returned as the hash reported them",
+			"Size":  "Size() is the sum of the counts the hash reported",
+			"Sum":   "Sum(b) = hash.Sum(b)",
+			"Name":  "Name() is the requested algorithm",
+		}[acc])
 	}
 }
 
@@ -524,119 +690,112 @@ func c12Fanout(p *Prog, rp *Report) {
 
 func c12Close(p *Prog, rp *Report) {
 	r := rp.Rule("C12-CLOSE", "verifier: Write forwards; first Close fails iff digest != recorded hash; FileHashFromHasher copies name, hex digest, size", 3)
-	if w := p.Method("control", "verifier", "Write"); w != nil {
-		t := newTermer()
-		ok := false
-		for _, ret := range returnsReachable(w.Blocks[0]) {
-			ok = t.term(ret.Results[0]) == "p0.h.Write(p1)#0" && t.term(ret.Results[1]) == "p0.h.Write(p1)#1"
-		}
-		r.check(ok, "control.verifier.Write", p.Pos(w.Pos()), "forwards to the hash", "does not return h.Write(p)")
-	} else {
-		r.bad("control.verifier.Write", "", "method not found", nil)
+	fhT := p.Named("control", "FileHash")
+	ver := p.Method("control", "FileHash", "Verifier")
+	if fhT == nil || ver == nil {
+		r.bad("control.FileHash.Verifier", "", "method not found", nil)
+		return
 	}
-	if c := p.Method("control", "verifier", "Close"); c != nil {
-		vT := p.Named("control", "verifier")
+	pos := p.Pos(ver.Pos())
+	none := func(i int) string { return "" }
+	mkVerifier := func(e *c12Env) (Val, string) {
+		id := e.st.alloc(fhT, mkStruct(fhT, map[string]Val{"Algorithm": "sha256", "Hash": "00ff10", "Size": int64(3), "Filename": "f"}))
+		ret, why := e.call(ver, Ptr{Obj: id})
+		if why != "" {
+			return nil, why
+		}
+		tv, ok := ret.(*TupleV)
+		if !ok || len(tv.E) != 2 || !errIsNil(tv.E[1]) || errIsNil(tv.E[0]) {
+			return nil, "undecided: Verifier() of a sha256 entry does not return a verifier"
+		}
+		return tv.E[0], ""
+	}
+	// Write
+	{
 		var problems []string
-		for _, closed := range []bool{false} {
-			for _, equal := range []bool{true, false} {
-				m := NewMachine(p, nil)
-				installStringModels(m)
-				cnt := 0
-				installHashCtors(m, &cnt)
-				var eqArgs []string
-				m.Hooks["bytes.Equal"] = func(m *Machine, st *State, call *ssa.CallCommon, args []Val) ([]Val, bool) {
-					for _, a := range args {
-						eqArgs = append(eqArgs, fmtVal(a, func(i int) string { return "" }))
-					}
-					return []Val{equal}, true
-				}
-				m.InvokeHook = func(m *Machine, st *State, call *ssa.CallCommon, recv Val, args []Val) ([]Val, bool) {
-					if call.Method.Name() == "Sum" {
-						if _, isNil := args[0].(nilV); !isNil {
-							return []Val{OpaqueV{"Sum(non-nil)"}}, true
-						}
-						return []Val{OpaqueV{"digest"}}, true
-					}
-					return nil, false
-				}
-				st := initState(m, "hashio", "control")
-				hid := st.alloc(types.Typ[types.Int], OpaqueV{"hash"})
-				id := st.alloc(vT, mkStruct(vT, map[string]Val{"h": IfaceV{T: types.NewPointer(types.Typ[types.Int]), V: Ptr{Obj: hid}}, "want": OpaqueV{"recorded"}, "closed": closed}))
-				st.push(c, []Val{Ptr{Obj: id}}, nil)
-				out := m.Run(st)
-				if len(out) != 1 || out[0].Status != stRet {
-					problems = append(problems, "undecided: "+retDesc(out))
-					continue
-				}
-				_, errNil := out[0].Ret.(nilV)
-				if errNil != equal {
-					problems = append(problems, fmt.Sprintf("digest equal to the recorded hash: %v, but Close returns error nil: %v", equal, errNil))
-				}
-				if len(eqArgs) != 2 || !(eqArgs[0] == "opaque(digest)" && eqArgs[1] == "opaque(recorded)" || eqArgs[1] == "opaque(digest)" && eqArgs[0] == "opaque(recorded)") {
-					problems = append(problems, fmt.Sprintf("Close compares %v, want h.Sum(nil) with the recorded hash", eqArgs))
-				}
-			}
-		}
-		undec := ""
-		for _, pr := range problems {
-			if strings.HasPrefix(pr, "undecided") {
-				undec = pr
-			}
-		}
-		if undec != "" {
-			r.undecided("control.verifier.Close", p.Pos(c.Pos()), undec)
+		e := newC12Env(p)
+		v, why := mkVerifier(e)
+		if why != "" {
+			problems = append(problems, why)
 		} else {
-			r.check(len(problems) == 0, "control.verifier.Close", p.Pos(c.Pos()), "first Close: error iff !bytes.Equal(h.Sum(nil), want)", strings.Join(problems, "; "))
+			data := byteSliceVal(e.st, []byte("hello"))
+			e.writeN = 5
+			res, why := e.method(v, nil, "Write", data)
+			wt, _ := res.(*TupleV)
+			switch {
+			case why != "":
+				problems = append(problems, why)
+			case wt == nil || wt.E[0] != int64(5) || !errIsNil(wt.E[1]):
+				problems = append(problems, "Write does not return what the hash's Write returned: "+fmtVal(res, none))
+			case len(e.writes) != 1 || !strings.HasPrefix(e.writes[0], "crypto/sha256.New#") || !strings.HasSuffix(e.writes[0], "|"+fmtVal(data, none)):
+				problems = append(problems, fmt.Sprintf("the bytes written to the verifier reach the hash as %v, want the caller's slice once, to the sha256 hash", e.writes))
+			}
+			e.writeErr, e.writeN = true, 1
+			res, why = e.method(v, nil, "Write", data)
+			if wt, _ := res.(*TupleV); why != "" || wt == nil || errIsNil(wt.E[1]) {
+				problems = append(problems, "an error of the hash's Write is swallowed"+why)
+			}
 		}
-	} else {
-		r.bad("control.verifier.Close", "", "method not found", nil)
+		fillProblems(r, "control.verifier.Write", pos, problems, "forwards the caller's slice to the hash of the entry's algorithm and returns its results")
 	}
+	// Close
+	{
+		var problems []string
+		for _, equal := range []bool{true, false} {
+			e := newC12Env(p)
+			if equal {
+				e.digest = []byte{0x00, 0xff, 0x10}
+			}
+			v, why := mkVerifier(e)
+			if why != "" {
+				problems = append(problems, why)
+				break
+			}
+			res, why := e.method(v, nil, "Close")
+			if why != "" {
+				problems = append(problems, why)
+				break
+			}
+			if errIsNil(res) != equal {
+				problems = append(problems, fmt.Sprintf("digest equal to the recorded hash: %v, but the first Close returns error nil: %v", equal, errIsNil(res)))
+			}
+			if len(e.sums) != 1 || !strings.HasSuffix(e.sums[0], "|nil") {
+				problems = append(problems, fmt.Sprintf("Close asks the hash for %v, want one Sum(nil)", e.sums))
+			}
+		}
+		fillProblems(r, "control.verifier.Close", pos, problems, "first Close: error iff the digest (Sum(nil)) differs from the recorded hash (a digest equal to it and a different one)")
+	}
+	// FileHashFromHasher
 	if f := p.Func("control", "FileHashFromHasher"); f != nil {
+		var problems []string
+		e := newC12Env(p)
 		hasherT := p.Named("hashio", "Hasher")
-		fhT := p.Named("control", "FileHash")
-		m := NewMachine(p, nil)
-		installStringModels(m)
-		m.Hooks["fmt.Sprintf"] = func(m *Machine, st *State, call *ssa.CallCommon, args []Val) ([]Val, bool) {
-			format, _ := args[0].(string)
-			elems, _, ok := m.sliceElems(st, args[1])
-			if ok && len(elems) == 1 {
-				e := elems[0]
-				if iv, isI := e.(IfaceV); isI {
-					e = iv.V
-				}
-				if o, isO := e.(OpaqueV); isO && (format == "%x" || format == "%02x") {
-					return []Val{OpaqueV{"hex(" + o.Name + ")"}}, true
-				}
-			}
-			return sprintfModel(m, st, call, args)
-		}
-		m.InvokeHook = func(m *Machine, st *State, call *ssa.CallCommon, recv Val, args []Val) ([]Val, bool) {
-			if call.Method.Name() == "Sum" {
-				if _, isNil := args[0].(nilV); isNil {
-					return []Val{OpaqueV{"digest"}}, true
-				}
-				return []Val{OpaqueV{"digest-appended-to-something"}}, true
-			}
-			return nil, false
-		}
-		st := initState(m, "control", "hashio")
-		hid := st.alloc(types.Typ[types.Int], OpaqueV{"hash"})
-		hv := mkStruct(hasherT, map[string]Val{"name": "sha256", "size": int64(4242), "hash": IfaceV{T: types.NewPointer(types.Typ[types.Int]), V: Ptr{Obj: hid}}})
-		st.push(f, []Val{"pool/f.deb", hv}, nil)
-		out := m.Run(st)
-		if len(out) != 1 || out[0].Status != stRet {
-			r.undecided("control.FileHashFromHasher", p.Pos(f.Pos()), retDesc(out))
+		ret, why := e.call(p.Func("hashio", "NewHasher"), "sha256")
+		tv, _ := ret.(*TupleV)
+		if why != "" || tv == nil || hasherT == nil || !errIsNil(tv.E[1]) {
+			problems = append(problems, "undecided: NewHasher: "+why)
 		} else {
-			sv, _ := st.Ret.(*StructV)
-			fs := structOf(fhT)
-			get := func(n string) string { return valStr(sv.F[fieldIndex(fs, n)]) }
-			ok := sv != nil && get("Algorithm") == `"sha256"` && get("Hash") == "hex(digest)" && get("Size") == "4242" && get("Filename") == `"pool/f.deb"`
-			detail := ""
-			if sv != nil {
-				detail = fmt.Sprintf("Algorithm=%s Hash=%s Size=%s Filename=%s", get("Algorithm"), get("Hash"), get("Size"), get("Filename"))
+			e.writeN = 4242
+			e.method(tv.E[0], types.NewPointer(hasherT), "Write", byteSliceVal(e.st, []byte("x")))
+			var harg Val = tv.E[0]
+			if _, isPtr := f.Signature.Params().At(1).Type().(*types.Pointer); !isPtr {
+				if pp, ok := tv.E[0].(Ptr); ok {
+					harg, _ = e.st.load(pp)
+				}
 			}
-			r.check(ok, "control.FileHashFromHasher", p.Pos(f.Pos()), "Algorithm = hasher.Name(), Hash = hex(hasher.Sum(nil)), Size = hasher.Size(), Filename = path", "entry built from a sha256 hasher of 4242 bytes: "+detail)
+			res, why := e.call(f, "pool/f.deb", cloneVal(harg))
+			sv, _ := res.(*StructV)
+			if why != "" || sv == nil {
+				problems = append(problems, "undecided: FileHashFromHasher: "+why)
+			} else {
+				fs := structOf(fhT)
+				get := func(n string) string { return valStr(sv.F[fieldIndex(fs, n)]) }
+				if !(get("Algorithm") == `"sha256"` && get("Hash") == `"abcdef"` && get("Size") == "4242" && get("Filename") == `"pool/f.deb"`) {
+					problems = append(problems, fmt.Sprintf("entry built from a sha256 hasher that counted 4242 bytes: Algorithm=%s Hash=%s Size=%s Filename=%s", get("Algorithm"), get("Hash"), get("Size"), get("Filename")))
+				}
+			}
 		}
+		fillProblems(r, "control.FileHashFromHasher", p.Pos(f.Pos()), problems, "Algorithm = hasher.Name(), Hash = hex(hasher.Sum(nil)), Size = hasher.Size(), Filename = path")
 	} else {
 		r.bad("control.FileHashFromHasher", "", "function not found", nil)
 	}
